@@ -235,7 +235,7 @@ floats through `json.Number.Float64`, anything else is a type mismatch -/
 theorem tie_jsonNumberCases :
     jsonNumberCases =
       ["case reflect.Int, reflect.Int8, reflect.Int16, reflect.Int32, reflect.Int64, reflect.Uint, reflect.Uint8, reflect.Uint16, reflect.Uint32, reflect.Uint64 => if err := setValueFromString(typeKind, target, v.String()); err != nil { return err }",
-       "case reflect.Float32 => fValue, err := v.Float64()",
+       "case reflect.Float32 => fValue, err := strconv.ParseFloat(v.String(), 32)",
        "case reflect.Float64 => fValue, err := v.Float64()",
        "default => return newTypeMismatchErrorWithHint(fullName, typeKind.String(), numberTypeString)"] := by rfl
 
